@@ -2,6 +2,8 @@ package harness
 
 import (
 	"bufio"
+	"sync/atomic"
+	"syscall"
 	"encoding/json"
 	"flag"
 	"fmt"
@@ -230,6 +232,7 @@ func workerMain(args []string) int {
 	scale := fs.Float64("scale", 1, "")
 	verif := fs.String("verif", "/verif", "")
 	deadline := fs.Int64("deadline", 0, "unix seconds after which the worker stops starting runs")
+	only := fs.Int("only", -1, "execute just this run index")
 	fs.Parse(args)
 	plan := Plans()[*prop]
 	if plan == nil {
@@ -244,6 +247,20 @@ func workerMain(args []string) int {
 	}
 	known := loadKnown(*verif)
 	pi := indexPlan(plan, *tier, *scale)
+	if plan.MemLimit > 0 {
+		setMemLimit(plan.MemLimit)
+	}
+	var runStart atomic.Int64
+	var runIdx atomic.Int64
+	go func() {
+		for {
+			time.Sleep(2 * time.Second)
+			if st := runStart.Load(); st != 0 && time.Now().Unix()-st > 120 {
+				fmt.Fprintf(os.Stderr, "WATCHDOG: run %d exceeds 120 s wall clock\n", runIdx.Load())
+				os.Exit(3)
+			}
+		}
+	}()
 	out := bufio.NewWriter(os.Stdout)
 	enc := json.NewEncoder(out)
 	emit := func(m workerMsg) { enc.Encode(m); out.Flush() }
@@ -251,7 +268,13 @@ func workerMain(args []string) int {
 	distinct := map[uint64]bool{}
 	states := map[uint64]bool{}
 	viols := 0
-	for i := *k; i < pi.total; i += *n {
+	first, stride := *k, *n
+	if *only >= 0 {
+		first, stride = *only, pi.total
+	}
+	for i := first; i < pi.total; i += stride {
+		runStart.Store(time.Now().Unix())
+		runIdx.Store(int64(i))
 		if *deadline > 0 && time.Now().Unix() > *deadline {
 			agg.Extra["stopped_by_deadline"] = 1
 			break
@@ -370,6 +393,7 @@ func replayMain(args []string) int {
 	fs := flag.NewFlagSet("replay", flag.ExitOnError)
 	real := fs.Bool("real", false, "pass-through: replay on a real temporary directory")
 	verbose := fs.Bool("v", false, "print the event log")
+	inproc := fs.Bool("inproc", false, "internal: execute in this process")
 	fs.Parse(args)
 	if fs.NArg() != 1 {
 		fmt.Fprintln(os.Stderr, "usage: sim replay [--real] [-v] <file>")
@@ -384,6 +408,29 @@ func replayMain(args []string) int {
 	if err := json.Unmarshal(b, &rf); err != nil {
 		fmt.Fprintln(os.Stderr, err)
 		return 2
+	}
+	if strings.Contains(rf.Signature, "/process-died/") && !*inproc {
+		self, _ := os.Executable()
+		cmd := exec.Command(self, "replay", "--inproc", fs.Arg(0))
+		outb, err := cmd.CombinedOutput()
+		ec := 0
+		if ee, ok := err.(*exec.ExitError); ok {
+			ec = ee.ExitCode()
+		}
+		if err != nil && ec != 1 && ec != 3 {
+			tail := string(outb)
+			if len(tail) > 600 {
+				tail = tail[:600]
+			}
+			fmt.Printf("replay: the process died again (%v)\n%s\n", err, tail)
+			fmt.Printf("VIOLATION property=%s replay=%s\n", rf.Property, fs.Arg(0))
+			return 1
+		}
+		fmt.Printf("replay: the process survived (exit %d); recorded: %s\n%s", ec, rf.Signature, outb)
+		return 0
+	}
+	if plan := Plans()[rf.Property]; plan != nil && plan.MemLimit > 0 {
+		setMemLimit(plan.MemLimit)
 	}
 	opts := RunOpts{StopOn: rf.Property, KeepLog: true}
 	if plan := Plans()[rf.Property]; plan != nil {
@@ -471,6 +518,11 @@ func checkMain(args []string) int {
 	var mu sync.Mutex
 	var viols []*ReplayFile
 	var errs []string
+	type death struct {
+		k, run int
+		err    string
+	}
+	var deaths []death
 	var wg sync.WaitGroup
 	infra := false
 	for k := 0; k < nw; k++ {
@@ -525,13 +577,52 @@ func checkMain(args []string) int {
 			err = cmd.Wait()
 			if err != nil || !gotAgg {
 				mu.Lock()
-				infra = true
-				errs = append(errs, fmt.Sprintf("worker %d died (%v) while executing run %d (run seed %d)", k, err, last, RunSeed(*seed, *prop, last)))
+				deaths = append(deaths, death{k, last, fmt.Sprint(err)})
 				mu.Unlock()
 			}
 		}(k)
 	}
 	wg.Wait()
+	// a worker that died is attributed to its journaled run, which is
+	// re-executed alone in a fresh process to classify it.
+	for _, d := range deaths {
+		if d.run < 0 {
+			infra = true
+			errs = append(errs, fmt.Sprintf("worker %d died before its first run: %s", d.k, d.err))
+			continue
+		}
+		cmd := exec.Command(self, "worker", "--prop", *prop, "--tier", *tier, "--seed", fmt.Sprint(*seed), "--only", fmt.Sprint(d.run),
+			"--scale", fmt.Sprint(*scale), "--verif", *verif)
+		outb, err := cmd.Output()
+		got := false
+		for _, line := range strings.Split(string(outb), "\n") {
+			var m workerMsg
+			if json.Unmarshal([]byte(line), &m) != nil {
+				continue
+			}
+			switch m.T {
+			case "viol":
+				viols = append(viols, m.Replay)
+			case "agg":
+				got = true
+			}
+		}
+		if err == nil && got {
+			// did not reproduce alone: the death was not caused by this run deterministically
+			infra = true
+			errs = append(errs, fmt.Sprintf("worker %d died (%s) in run %d but the run completes when executed alone", d.k, d.err, d.run))
+			continue
+		}
+		if plan.DeathIsViolation {
+			part, _ := pi.partOf(d.run)
+			spec := part.Gen(RunSeed(*seed, *prop, d.run))
+			viols = append(viols, &ReplayFile{Property: *prop, Signature: *prop + "/process-died/" + spec.Scenario, Detail: fmt.Sprintf("the process executing this case died (%s; alone: %v): fatal runtime error, memory exhaustion under the %d MiB fence, or watchdog", d.err, err, plan.MemLimit>>20), Spec: *spec,
+				MinimisedFrom: fmt.Sprintf("VERIF_SEED=%d run=%d (not minimised)", *seed, d.run)})
+		} else {
+			infra = true
+			errs = append(errs, fmt.Sprintf("worker %d died (%s) in run %d (run seed %d), reproducibly", d.k, d.err, d.run, RunSeed(*seed, *prop, d.run)))
+		}
+	}
 	wall := time.Since(start).Seconds()
 
 	// report
@@ -671,4 +762,9 @@ func Main(args []string) int {
 	}
 	fmt.Fprintf(os.Stderr, "unknown command %q\n", args[0])
 	return 2
+}
+
+func setMemLimit(bytes uint64) {
+	lim := syscall.Rlimit{Cur: bytes, Max: bytes}
+	syscall.Setrlimit(9 /* RLIMIT_AS */, &lim)
 }
